@@ -82,6 +82,9 @@ func main() {
 			v, _ := strconv.ParseInt(a, 10, 64)
 			j.Args = append(j.Args, v)
 		}
+		if v, err := strconv.Atoi(os.Getenv("GOSYM_MAXLEN")); err == nil {
+			j.MaxLen = v
+		}
 		if os.Getenv("GOSYM_PROFILE") != "" {
 			profileQueries = true
 		}
